@@ -1,0 +1,34 @@
+//go:build verif
+
+package dnsserver
+
+import (
+	"sync/atomic"
+
+	"github.com/facebookincubator/dns/dnsrocks/db"
+)
+
+// verification-only instrumentation, compiled with -tags verif
+
+type verifHookFunc func(point string, arg interface{})
+
+var verifHook atomic.Value
+
+// SetVerifHook installs (or with nil removes) a callback invoked at the named
+// yield points of ServeDNSWithRCODE and Reload.
+func SetVerifHook(f func(point string, arg interface{})) {
+	verifHook.Store(verifHookFunc(f))
+}
+
+func verifYield(point string, arg interface{}) {
+	if f, ok := verifHook.Load().(verifHookFunc); ok && f != nil {
+		f(point, arg)
+	}
+}
+
+// VerifSetDB installs a caller-built *db.DB as the served database.
+func (h *FBDNSDB) VerifSetDB(d *db.DB) {
+	h.reloadMu.Lock()
+	defer h.reloadMu.Unlock()
+	h.dnsdb = d
+}
